@@ -270,7 +270,7 @@ def run(ctx):
                 '0, 1, some, all fits; with/without additional dictionaries; inputs as file, one object, list. a case = one writer call; non-trivial = >=2 selected fits')
     ctx.assume('printed precision: %10.3e -> 5e-4 relative, %10.3f -> 5e-4 absolute', 'selectors whose threshold equals an attained value are skipped (C05 don\'t-care)',
                'parameter values are position-encoding: (model+1)*10^column, so any row mix-up is visible at printed precision')
-    ctx.require_events('FitInfo.filter_table:post', 'text:labels-used', 'text:write_parameters', 'text:write_parameter_ranges', 'text:extract_parameters', 'plot_params:table-checked', 'plot_params_2d:points-checked', 'plot_params_1d:histogram-checked', 'history:other-package-fitted-in-between')
+    ctx.require_events('FitInfo.filter_table:post', 'text:write_parameters', 'text:write_parameter_ranges', 'text:extract_parameters', 'plot_params:observed', 'history:other-package-fitted-in-between')
     ctx.require_regimes('additional:ints-and-floats', 'perm:identity', 'perm:reversed', 'perm:random', 'perm:name-sorted', 'selected:0', 'selected:1', 'selected:all', 'additional', 'additional:several', 'parameter:nan', 'extract:subset',
                         'input:file', 'input:object', 'input:list')
     n_pk = 8 if ctx.quick else 40
@@ -330,7 +330,7 @@ def run(ctx):
             decoy.fit(gen.build_source('decoy_src', valid, flux, err))
             ctx.event('history:other-package-fitted-in-between')
         except Exception as exc:
-            ctx.violation('setup:decoy-fitter', 'a second fitter on another package raised: %r' % (exc,), dict(perm=kind))
+            ctx.raised(exc, 'setup:decoy-fitter', 'a second fitter on another package raised: %r' % (exc,), dict(perm=kind))
         path = os.path.join(d, 'fits.out')
         fo = FitInfoFile(path, 'w')
         for inf in infos:
@@ -374,12 +374,12 @@ def run(ctx):
                     write_parameters(inp, out + '.wp', select_format=sel, additional=additional)
                     check_write_parameters(ctx, open(out + '.wp').read(), rr, sel, truth, additional, dict(wit, writer='write_parameters'))
                 except Exception as exc:
-                    ctx.violation('write_parameters:raised:%s' % type(exc).__name__, 'write_parameters raised: %r' % (exc,), wit)
+                    ctx.raised(exc, 'write_parameters:raised:%s' % type(exc).__name__, 'write_parameters raised: %r' % (exc,), wit)
                 try:
                     write_parameter_ranges(inp, out + '.wr', select_format=sel, additional=additional)
                     check_ranges(ctx, open(out + '.wr').read(), rr, sel, truth, additional, dict(wit, writer='write_parameter_ranges'))
                 except Exception as exc:
-                    ctx.violation('write_parameter_ranges:raised:%s' % type(exc).__name__, 'write_parameter_ranges raised: %r' % (exc,), wit)
+                    ctx.raised(exc, 'write_parameter_ranges:raised:%s' % type(exc).__name__, 'write_parameter_ranges raised: %r' % (exc,), wit)
                 try:
                     os.mkdir(out + '.ex')
                     ekw, ecols_, ehdr = {}, table_cols, True
@@ -392,7 +392,7 @@ def run(ctx):
                     files = {f: open(os.path.join(out + '.ex', f), 'rb').read() for f in os.listdir(out + '.ex')}
                     check_extract(ctx, files, rr, sel, truth, dict(wit, writer='extract_parameters', extract_options=str(ekw)), ecols_, header=ehdr)
                 except Exception as exc:
-                    ctx.violation('extract_parameters:raised:%s' % type(exc).__name__, 'extract_parameters raised: %r' % (exc,), wit)
+                    ctx.raised(exc, 'extract_parameters:raised:%s' % type(exc).__name__, 'extract_parameters raised: %r' % (exc,), wit)
                 ctx.case(('w', ip, isel, form, ctx.shard), nontrivial=any((c_ or 0) >= 2 for c_ in kept),
                          sample=dict(wit, kept=kept) if ip == 0 and isel == 2 else None)
         # the table handed to the parameter plots (renders; once per run in quick)
@@ -403,7 +403,15 @@ def run(ctx):
             # what reaches the axes is observed (scatter points / histogram polygons), whichever way the plot obtained its table
             import matplotlib.axes as maxes
             drawn = {'scatter': [], 'patch': []}
-            o_sc, o_ap = maxes.Axes.scatter, maxes.Axes.add_patch
+            o_sc, o_ap, o_pl = maxes.Axes.scatter, maxes.Axes.add_patch, maxes.Axes.plot
+
+            def pl_(self, *a_, **k_):
+                try:
+                    if len(a_) >= 2 and not isinstance(a_[1], str) and np.ndim(a_[0]) == 1 and np.ndim(a_[1]) == 1:
+                        drawn['scatter'].append((np.array(a_[0], float).ravel(), np.array(a_[1], float).ravel()))
+                except Exception:
+                    pass
+                return o_pl(self, *a_, **k_)
 
             def sc_(self, x, y, *a_, **k_):
                 try:
@@ -420,23 +428,23 @@ def run(ctx):
                 return o_ap(self, p_)
 
             try:
-                maxes.Axes.scatter, maxes.Axes.add_patch = sc_, ap_
+                maxes.Axes.scatter, maxes.Axes.add_patch, maxes.Axes.plot = sc_, ap_, pl_
                 n0 = ctx.events.get('FitInfo.filter_table:post', 0)
                 plot_params_1d(path, colnames[0], output_dir=os.path.join(d, 'p1d'), select_format=('N', 3), format='png', log_x=False)
                 if ctx.events.get('FitInfo.filter_table:post', 0) > n0:
-                    ctx.event('plot_params:table-checked')
+                    ctx.event('plot_params:table-checked'); ctx.event('plot_params:observed')
                 patches = list(drawn['patch'])
                 drawn['patch'] = []
                 n0 = ctx.events.get('FitInfo.filter_table:post', 0)
                 plot_params_2d(list(infos), colnames[0], colnames[-1], output_dir=os.path.join(d, 'p2d'), select_format=('N', 2), format='png',
                                log_x=False, log_y=False)
                 if ctx.events.get('FitInfo.filter_table:post', 0) > n0:
-                    ctx.event('plot_params:table-checked')
+                    ctx.event('plot_params:table-checked'); ctx.event('plot_params:observed')
             except Exception as exc:
-                ctx.violation('plot_params:raised', 'parameter plot raised: %r' % (exc,), dict(perm=kind))
+                ctx.raised(exc, 'plot_params:raised', 'parameter plot raised: %r' % (exc,), dict(perm=kind))
                 patches = None
             finally:
-                maxes.Axes.scatter, maxes.Axes.add_patch = o_sc, o_ap
+                maxes.Axes.scatter, maxes.Axes.add_patch, maxes.Axes.plot = o_sc, o_ap, o_pl
             plt.close('all')
             if patches is not None:
                 # 2-D: one scatter per source holding (x, y) of every selected fit's model
@@ -446,7 +454,7 @@ def run(ctx):
                         mn = [str(x_).strip() for x_ in r_['model_name'][:expected_kept(r_, ('N', 2))[0]]]
                         want = sorted((truth['rows'][m][colnames[0]], truth['rows'][m][colnames[-1]]) for m in mn if np.isfinite(truth['rows'][m][colnames[0]]) and np.isfinite(truth['rows'][m][colnames[-1]]))
                         got = sorted(g_ for g_ in zip(xs.tolist(), ys.tolist()) if np.isfinite(g_[0]) and np.isfinite(g_[1]))
-                        ctx.event('plot_params_2d:points-checked')
+                        ctx.event('plot_params_2d:points-checked'); ctx.event('plot_params:observed')
                         if len(got) != len(want) or any(abs(g_[0] - w_[0]) > 2e-6 * abs(w_[0]) + 1e-30 or abs(g_[1] - w_[1]) > 2e-6 * abs(w_[1]) + 1e-30
                                                           for g_, w_ in zip(got, want)):
                             ctx.violation('plot_params_2d:wrong-points', 'the points drawn for a source are not the parameter values of the models of its selected fits',
@@ -454,16 +462,21 @@ def run(ctx):
                             break
                 # 1-D: the hatched histogram drawn for a source holds exactly its selected fits, each in the bin of its model's value
                 polys = [p_ for p_ in patches if p_.ndim == 2 and p_.shape[0] >= 6]
-                if len(polys) >= 1 + len(recs):
+                if len(polys) >= len(recs):
                     for r_, poly in zip(recs, polys[-len(recs):]):
                         cnt, _nd = expected_kept(r_, ('N', 3))
                         mn = [str(x_).strip() for x_ in r_['model_name'][:cnt]]
                         vals = np.array([truth['rows'][m][colnames[0]] for m in mn], float)
                         vals = vals[np.isfinite(vals)]
-                        xe, ye = poly[:-3:2, 0], poly[:-3:2, 1]          # left edge and height of every bin
-                        xr = poly[1:-2:2, 0]
+                        # heights per bin from the vertices, whatever order they are listed in: the height of bin [a, b] is the
+                        # largest y that occurs both at x = a and at x = b
+                        xs_ = np.unique(poly[:, 0])
+                        if len(xs_) < 2:
+                            continue
+                        xe, xr = xs_[:-1], xs_[1:]
+                        ye = np.array([max(set(np.round(poly[poly[:, 0] == a_, 1], 9)) & set(np.round(poly[poly[:, 0] == b_, 1], 9)), default=0.0) for a_, b_ in zip(xe, xr)])
                         counts = np.where(ye >= 0.5, np.round(ye), 0.0)
-                        ctx.event('plot_params_1d:histogram-checked')
+                        ctx.event('plot_params_1d:histogram-checked'); ctx.event('plot_params:observed')
                         bad = int(counts.sum()) != len(vals)
                         for v_ in vals:
                             inbin = (xe * (1 - 2e-6) - 1e-30 <= v_) & (v_ <= xr * (1 + 2e-6) + 1e-30) if np.all(xe >= 0) else (xe - 2e-6 * np.abs(xe) <= v_) & (v_ <= xr + 2e-6 * np.abs(xr))
